@@ -72,16 +72,18 @@ func Parallelize(ctx context.Context, jobs []func(context.Context) error, option
 		defer cancel()
 	}
 	semaphoreC := make(chan struct{}, Parallelism()*multiplier)
-	var errs []error
+	// Errors are recorded per job and returned in the order of the jobs, so that the returned
+	// error does not depend on which of several failing jobs happened to fail first.
+	jobErrs := make([]error, len(jobs))
 	var lock sync.Mutex
-	addError := func(err error) {
+	addError := func(i int, err error) {
 		lock.Lock()
-		errs = append(errs, err)
+		jobErrs[i] = err
 		lock.Unlock()
 	}
 	var wg sync.WaitGroup
 	var stop bool
-	for _, job := range jobs {
+	for i, job := range jobs {
 		if stop {
 			break
 		}
@@ -95,20 +97,20 @@ func Parallelize(ctx context.Context, jobs []func(context.Context) error, option
 		select {
 		case <-ctx.Done():
 			stop = true
-			addError(ctx.Err())
+			addError(i, ctx.Err())
 		case semaphoreC <- struct{}{}:
 			select {
 			case <-ctx.Done():
 				stop = true
-				addError(ctx.Err())
+				addError(i, ctx.Err())
 			default:
-				job := job
+				i, job := i, job
 				wg.Add(1)
 				token := verifhook.Spawn()
 				go func() {
 					verifhook.Begin(token)
 					if err := job(ctx); err != nil {
-						addError(err)
+						addError(i, err)
 						if cancel != nil {
 							cancel()
 						}
@@ -123,6 +125,12 @@ func Parallelize(ctx context.Context, jobs []func(context.Context) error, option
 	}
 	verifhook.Wait()
 	wg.Wait()
+	var errs []error
+	for _, err := range jobErrs {
+		if err != nil {
+			errs = append(errs, err)
+		}
+	}
 	switch len(errs) {
 	case 0:
 		return nil
